@@ -223,7 +223,7 @@ impl World {
         let nowriter = || json!({"ev":name,"ok":false,"err":"nowriter"});
         match name {
             "new_writer" => match self.open_writer() {
-                Ok(()) => json!({"ev":"new_writer","ok":true}),
+                Ok(()) => json!({"ev":"new_writer","ok":true,"commit_opstamp":self.writer.as_ref().map(|w| w.commit_opstamp())}),
                 Err(e) => json!({"ev":"new_writer","ok":false,"err":e}),
             },
             "drop_writer" => {
